@@ -1,6 +1,7 @@
 mod harness;
 mod obs;
 mod props;
+mod refwalk;
 mod runner;
 mod world;
 
@@ -12,6 +13,9 @@ fn main() {
   }
   let id = args[1].clone();
   let code = match id.as_str() {
+    "C15" => runner::dispatch(props::c15::spec(), &args),
+    "C19" => runner::dispatch(props::c19::spec(), &args),
+    "C18" => runner::dispatch(props::c18::spec(), &args),
     "C17" => runner::dispatch(props::c17::spec(), &args),
     other => {
       eprintln!("unknown property {other}");
